@@ -311,6 +311,11 @@ func (s *Server) handleDiscovery(clientMAC net.HardwareAddr, data []byte) {
 		return
 	}
 
+	if int(hdr.Length) > len(data)-6 {
+		s.logger.Debug("PPPoE length exceeds frame", zap.Uint16("length", hdr.Length))
+		return
+	}
+
 	payload := data[6 : 6+hdr.Length]
 	tags, err := ParseTags(payload)
 	if err != nil {
